@@ -19,6 +19,7 @@ pub const FLAG_BINDING: u32 = 4; // float twiddle handed over does not match (in
 pub const FLAG_NONRING: u32 = 8; // abs/signum/is_positive/is_negative/rem/is_zero-on-data/compare
 pub const FLAG_DIV_DATA: u32 = 16; // division by a data-dependent value
 pub const FLAG_BAD_LEN: u32 = 32; // twiddle length does not divide M (collect pass missed it)
+pub const FLAG_RATIONAL_CONST: u32 = 64; // a non-dyadic rational (e.g. 1/36) was routed through f64: an exact type cannot reproduce it
 
 #[derive(Copy, Clone, Debug)]
 pub struct Fp {
@@ -73,6 +74,7 @@ pub fn flag_names(f: u32) -> String {
         (FLAG_NONRING, "non-ring-operation"),
         (FLAG_DIV_DATA, "division-by-data"),
         (FLAG_BAD_LEN, "twiddle-length-not-collected"),
+        (FLAG_RATIONAL_CONST, "rational-constant-rounded-through-f64"),
     ] {
         if f & b != 0 {
             v.push(n);
@@ -373,10 +375,58 @@ impl FromPrimitive for Fp {
             if x == -0.5 {
                 return Some(Fp { v: f.p - f.inv2, tag: TAG_CONST });
             }
+            // a non-dyadic rational p/q with a small denominator: the value was exactly computable with ring
+            // operations and a division, but arrives rounded to 53 bits. Continue with the intended value p/q.
+            if let Some((num, den, neg)) = small_rational(x) {
+                flag(FLAG_RATIONAL_CONST);
+                let inv = powmod(den % f.p, f.p - 2, f.p);
+                let v = mulmod(num % f.p, inv, f.p);
+                return Some(Fp { v: if neg && v != 0 { f.p - v } else { v }, tag: TAG_CONST });
+            }
             flag(FLAG_UNKNOWN_CONST);
             Some(Fp { v: 0, tag: TAG_POISON })
         })
     }
+}
+
+/// x ~ +-p/q with 1 < q <= 2^22 (continued fractions), relative error below 1e-14; dyadic and integer values are excluded
+pub fn small_rational(x: f64) -> Option<(u64, u64, bool)> {
+    if !x.is_finite() || x == 0.0 {
+        return None;
+    }
+    let neg = x < 0.0;
+    let a = x.abs();
+    let (mut h0, mut h1, mut k0, mut k1) = (0u64, 1u64, 1u64, 0u64);
+    let mut r = a;
+    for _ in 0..40 {
+        let fl = r.floor();
+        if fl > 1e15 {
+            break;
+        }
+        let ai = fl as u64;
+        let h2 = ai.checked_mul(h1)?.checked_add(h0)?;
+        let k2 = ai.checked_mul(k1)?.checked_add(k0)?;
+        if k2 > (1u64 << 22) {
+            break;
+        }
+        h0 = h1;
+        h1 = h2;
+        k0 = k1;
+        k1 = k2;
+        let approx = h1 as f64 / k1 as f64;
+        if ((approx - a) / a).abs() < 1e-14 {
+            if k1 > 1 && !k1.is_power_of_two() {
+                return Some((h1, k1, neg));
+            }
+            return None;
+        }
+        let frac = r - fl;
+        if frac < 1e-300 {
+            break;
+        }
+        r = 1.0 / frac;
+    }
+    None
 }
 
 pub fn self_check() -> Result<(), String> {
